@@ -26,3 +26,12 @@ def v0_stoich_t_half(a: float) -> float:
 
 def t_sqrt(k: float, s: float) -> float:
     return k * s**0.5
+
+
+def t_net(p: float, s: float) -> float:
+    """mirror image of trans.t_net: same expression when wired to the same model names in reverse order"""
+    return 2.0 * s - p
+
+
+def t_un(a: float) -> float:
+    return a * 2.0
